@@ -129,6 +129,15 @@ func (fr *Frame) callValue(st *State, fv Value, args []Value, cc *ssa.CallCommon
 	}
 	sig := cc.Signature()
 	fr.safety(st, Neq(f.H, Int(0)), "call of nil func")
+	top := fr
+	for top.parent != nil {
+		top = top.parent
+	}
+	for _, f := range []*Frame{fr, top} {
+		if ctr := fr.v.cs.ByKey["ext::"+name+"@"+fnPkgPath(f.fn)]; ctr != nil {
+			return fr.applyContract(st, ctr, name, sig, nil, args, false)
+		}
+	}
 	if ctr := fr.v.cs.ByKey["ext::"+name]; ctr != nil {
 		return fr.applyContract(st, ctr, name, sig, nil, args, false)
 	}
